@@ -407,13 +407,13 @@ TASK.fixture_check = fixture_check
 # The decimal note lattice is not closed under exact shifts, so the relations use a DYADIC note lattice (k/64 s):
 # onset distances 3/64 < 0.05 < 4/64, offset distances 12/64 < 0.2 < 13/64 - every distance keeps >= 0.003 s from
 # every tolerance, and x + d is exact for dyadic d.
-def dyadic_notes(phase, vels=None):
+def dyadic_notes(phase, vels=None, cs=(0, 51)):
     f0 = f0_of(phase)
     b = Fr(phase, 4)
     out = []
     for on in (0, 3, 4):
         for d in (16, 64):
-            for c in (0, 51):
+            for c in cs:
                 n = (float(b + Fr(on, 64)), float(b + Fr(on + d, 64)), cents(f0, c))
                 if vels is None:
                     out.append(n)
@@ -425,7 +425,18 @@ def dyadic_notes(phase, vels=None):
 def edge_space(tier, phase):
     from mc import lib
     sides = list(lib.multisets(dyadic_notes(phase), 2))
-    return [(a, b) for a in sides for b in sides]
+    out = [(a, b) for a in sides for b in sides]
+    # pitch pairs just INSIDE the tolerance as well (49 cents): plain notes on one side, 49-cent notes on the other
+    s0 = list(lib.multisets(dyadic_notes(phase, cs=(0,)), 2))
+    s49 = list(lib.multisets(dyadic_notes(phase, cs=(49,)), 2))
+    seen = set(out)
+    for a in s0:
+        for b in s49:
+            for st in ((a, b), (b, a)):
+                if st not in seen:
+                    seen.add(st)
+                    out.append(st)
+    return out
 
 
 def _map_notes(state, f, which=(0, 1)):
